@@ -104,6 +104,8 @@ def check(pid, tier, seed, only_report=None):
             backends["verus"]["smt_ms"] += r.smt_ms
             for e in r.tool_errors:
                 tool_errors.append("[%s] %s" % (un, e))
+            for e in u.lost_hints.get(pid, []):
+                tool_errors.append("[%s] optional proof-hint anchor lost (%s): obligations of %s that need it are undecided" % (un, e, pid))
             for k, v in u.rule_counts.items():
                 rules[k] = rules.get(k, 0) + v
             for t in u.trusted:
